@@ -7,8 +7,8 @@ import (
 	"strings"
 
 	"github.com/ProtonMail/gluon/imap"
-	"github.com/emersion/go-imap/utf7"
 	"github.com/ProtonMail/gluon/verifhooks"
+	"github.com/emersion/go-imap/utf7"
 
 	"verifharness/ev"
 	"verifharness/imapc"
